@@ -310,6 +310,10 @@ func (engC16) Gen(r *Rng, s *Script, idx int, tier string) {
 	if r.Chance(2, 3) {
 		focus = r.Intn(NFormats) // tasks rendering the same format at once is where shared state would show
 	}
+	errW := 0
+	if r.Chance(1, 2) {
+		errW = 3
+	}
 	for t := 0; t < nt; t++ {
 		var steps []Step
 		ctr := t * 1000
@@ -329,13 +333,20 @@ func (engC16) Gen(r *Rng, s *Script, idx int, tier string) {
 			steps = append(steps, Step{Op: "rowItems", Items: common})
 		}
 		for i := r.Range(1, 6); i > 0; i-- {
-			switch r.Pick([]int{8, 2, 2}) {
+			switch r.Pick([]int{8, 2, 2, errW}) {
 			case 0:
 				steps = append(steps, genBuildStep(r, m, level, &ctr))
 			case 1:
 				steps = append(steps, Step{Op: "setProp", A: r.Intn(12), C: r.Intn(14), D: 1})
+			case 2:
+				steps = append(steps, genRegister(r, errW > 0 && r.Chance(1, 2), false))
 			default:
-				steps = append(steps, genRegister(r, false, false))
+				// each table collects its own errors (and only its own)
+				if r.Chance(1, 2) {
+					steps = append(steps, Step{Op: "tableError"})
+				} else {
+					steps = append(steps, Step{Op: "rowError", A: r.Intn(3)})
+				}
 			}
 		}
 		for i := r.Range(2, 6); i > 0; i-- {
